@@ -16,18 +16,21 @@ def run(ctx):
     b = ctx.build("c19", "c19.cpp", opt="-O1")
     if not b:
         return
-    tr = ctx.scratch.path("c19.ndjson")
-    ok, out = ctx.run_harness(b, [tr, ctx.tier], tr)
-    if not ok:
-        return
-    v = ctx.validate(TRACE_MODULE, tr, label="events", min_lines=1000)
-    # the aggregate round-trip events stand for cnt triples each
+    # quick: one trace; thorough: one trace per section (keeps every TLC process below ~40k lines)
+    sections = ["all"] if ctx.quick else ["srgb", "hsv", "ycocg", "int", "sat"]
     swept = 0
-    with open(tr) as f:
-        for ln in f:
-            if ln.startswith('{"op":"ycocgrSweep"'):
-                m = re.search(r'"cnt":(\d+)', ln)
-                swept += int(m.group(1)) if m else 0
+    for sec in sections:
+        tr = ctx.scratch.path("c19-%s.ndjson" % sec)
+        ok, out = ctx.run_harness(b, [tr, ctx.tier, sec], tr)
+        if not ok:
+            return
+        ctx.validate(TRACE_MODULE, tr, label="events" if sec == "all" else sec, min_lines=1000)
+        # the aggregate round-trip events stand for cnt triples each
+        with open(tr) as f:
+            for ln in f:
+                if ln.startswith('{"op":"ycocgrSweep"'):
+                    m = re.search(r'"cnt":(\d+)', ln)
+                    swept += int(m.group(1)) if m else 0
     ctx.sweep_inputs += swept
     ctx.extra["ycocgr_roundtrip_triples_swept"] = swept
     ctx.extra["distinct_extra"] = swept
